@@ -19,7 +19,8 @@ pub fn value_types(quick: bool) -> Vec<Ty> {
         v.push(Ty::arr(u(8), n));
     }
     let bytes = |n: usize| Ty::arr(Ty::U(8), n);
-    let inner: Vec<Ty> = vec![bytes(0), bytes(1), bytes(2), bytes(3), u(8), u(1), u(2), u(4), u(16), u(128), u(256), Ty::Bool, Ty::unit(), Ty::arr(u(16), 2), Ty::arr(u(4), 2)];
+    // (byte arrays of 16 and 32 bytes print exactly like u128 / u256 values: equal texts at two types in one value)
+    let inner: Vec<Ty> = vec![bytes(0), bytes(1), bytes(2), bytes(3), u(8), u(1), u(2), u(4), u(16), u(128), u(256), Ty::Bool, Ty::unit(), Ty::arr(u(16), 2), Ty::arr(u(4), 2), bytes(16), bytes(32)];
     // depth 2: containers of the above
     for t in &inner {
         v.push(t.clone());
@@ -198,6 +199,27 @@ pub fn run(rep: &Report) -> i32 {
         }
         check_map(rep, &entries, o % 53 == 0);
     });
+    // maps in which one hex text occurs at two types (u256 / [u8; 32], u128 / [u8; 16]) under different names
+    {
+        use crate::big::Big;
+        for pat in [0u8, 0xff, 0x5a] {
+            let b32: Vec<u8> = (0..32).map(|i| if pat == 0x5a { pat.wrapping_add(i as u8) } else { pat }).collect();
+            let bytes = |n: usize| Val::Array(b32[..n].iter().map(|b| Val::u(8, *b as u128)).collect());
+            let entries = vec![
+                ("PK".to_string(), Val::U(256, Big::from_bytes(&b32)), Ty::U(256)),
+                ("PK_BYTES".to_string(), bytes(32), Ty::arr(Ty::U(8), 32)),
+                ("HALF".to_string(), Val::U(128, Big::from_bytes(&b32[..16])), Ty::U(128)),
+                ("HALF_BYTES".to_string(), bytes(16), Ty::arr(Ty::U(8), 16)),
+                ("AGAIN".to_string(), Val::U(256, Big::from_bytes(&b32)), Ty::U(256)),
+            ];
+            for k in 2..=entries.len() {
+                rep.state();
+                check_map(rep, &entries[..k], pat == 0);
+                let rev: Vec<_> = entries[..k].iter().rev().cloned().collect();
+                check_map(rep, &rev, false);
+            }
+        }
+    }
     rep.finish(
         "states = value types + types + maps; transitions include one per value; non-trivial = values containing a non-empty byte array nested inside another container",
         &["values/maps are built with the Rust constructors; the harness's own renderer is only used in messages"],
